@@ -55,27 +55,27 @@ def run_c12(scn, dev, expect, mons):
 
 
 # ---------------------------------------------------------------------------------------------------------------
-def _history_run(opt, ev, seed):
-    """one earlier optimize() call of a C08 history on the instance `opt` (environment answers: defaults)"""
-    scn = {'opt': ev['opt'], 'over': ev['over'], 'proto': ev['proto'], 'minmax': ev.get('minmax', 'min'),
-           'seed': seed, 'weights': ev.get('weights'), 'tcls': ev.get('tcls', 'A'), 'lenient': True}
-    opt._config = registry.make_config(ev['opt'], **ev['over']) if ev.get('reconfigure') else opt._config
-    return harness.run_execution(scn, {}, opt=opt)
-
-
 def run_c08(scn, dev, expect, mons):
     """probe run on an instance with history scn['history'] vs on a fresh instance, same choice list"""
     base = dict(scn)
     base.pop('runner')
     hist = base.pop('history')
     fresh = harness.run_execution(base, dev, expect=expect)
-    used_opt = harness.build_optimizer(base)
+    with seams.paused():
+        used_opt = harness.build_optimizer(base)
+    probe_params = registry.base_params(base['opt'], **base.get('over', {}))
     for k, ev in enumerate(hist):
-        cfg0 = used_opt._config
-        # an earlier run may use other stopping options: same algorithm parameters, other base fields
-        used_opt._config = registry.make_config(base['opt'], **ev['over'])
-        _history_run(used_opt, dict(ev, opt=base['opt']), seed=1000 + k)
-        used_opt._config = cfg0
+        with seams.paused():
+            if ev.get('over') is not None:
+                # an earlier run with other stopping options, through the public API (as HyperTuner does)
+                used_opt.set_config_parameters(registry.base_params(base['opt'], **ev['over']))
+        hs = {'opt': base['opt'], 'over': ev.get('over') or base.get('over', {}), 'proto': ev['proto'],
+              'minmax': ev.get('minmax', 'min'), 'seed': 1000 + k, 'weights': ev.get('weights'),
+              'tcls': ev.get('tcls', 'A'), 'lenient': True}
+        harness.run_execution(hs, {}, opt=used_opt)
+        with seams.paused():
+            if ev.get('over') is not None:
+                used_opt.set_config_parameters(probe_params)
     used = harness.run_execution(dict(base, lenient=True), dev, opt=used_opt)
     o = scn['opt']
     finds = []
